@@ -12,7 +12,7 @@ from vlib import core
 
 SRC = {'good.c': 'int g%d(void){return %d;}\n', 'bad.c': 'int b%d(void){return %d ;;;+}\n', 'badcg.c': 'int c%d(void){ 1 = %d; return 0; }\n',
        'goodasm.s': '.globl a%d\na%d:\n  ret\n', 'badasm.s': '  thisisnotaninsn %d, %d\n'}
-KINDS = ['good.c', 'bad.c', 'badcg.c', 'missing.c', 'goodasm.s', 'badasm.s']
+KINDS = ['good.c', 'bad.c', 'badcg.c', 'missing.c', 'goodasm.s', 'badasm.s', 'obj.o']
 
 
 def setup(d, chi):
@@ -87,9 +87,11 @@ def one(job):
         setup(d, chi)
         inputs = []
         for i, k in enumerate(kinds):
-            ext = '.c' if k.endswith('.c') else '.s'
+            ext = '.c' if k.endswith('.c') else ('.o' if k.endswith('.o') else '.s')
             name = 'u%d%s' % (i, ext)
-            if k != 'missing.c':
+            if k == 'obj.o':
+                shutil.copy(os.path.join(os.path.dirname(preload), 'obj%d.o' % i), os.path.join(d, name))      # a pre-built object defining o<i>
+            elif k != 'missing.c':
                 open(os.path.join(d, name), 'w').write(SRC[k] % (i, i))
             inputs.append((name, k))
         if mode == 'link':
@@ -135,7 +137,7 @@ def one(job):
                 nm = subprocess.run(['nm', exe], capture_output=True, text=True).stdout
                 defined = set(l.split()[-1] for l in nm.split('\n') if len(l.split()) == 3 and l.split()[1] in 'Tt')
                 for i, (name, kind) in enumerate(inputs):
-                    sym = {'good.c': 'g%d' % i, 'goodasm.s': 'a%d' % i}.get(kind) if name != 'mainx.c' else 'main'
+                    sym = {'good.c': 'g%d' % i, 'goodasm.s': 'a%d' % i, 'obj.o': 'o%d' % i}.get(kind) if name != 'mainx.c' else 'main'
                     if sym and sym not in defined:
                         problems.append('input %s was not linked into the executable (symbol %s missing)' % (name, sym))
         log = open(os.path.join(d, 'tmplog')).read().split('\n') if os.path.exists(os.path.join(d, 'tmplog')) else []
@@ -154,7 +156,7 @@ def all_jobs(tier):
     for mode in ('-S', '-c', 'link', '-E'):
         for n in (1, 2, 3):
             for kinds in itertools.product(KINDS, repeat=n):
-                if mode == '-E' and any(k.endswith('.s') for k in kinds):
+                if mode == '-E' and any(k.endswith('.s') or k.endswith('.o') for k in kinds):
                     continue
                 if n == 3 and tier == 'quick' and len(set(kinds)) == 3 and kinds[0] > kinds[1]:
                     continue          # quick tier: permutations of three distinct kinds thinned (thorough runs all)
@@ -174,7 +176,7 @@ def all_jobs(tier):
 class C14:
     id = 'C14'
     level = 'fault_enumeration'
-    rule = ('complete enumeration: command shape {-E,-S,-c,link} x {-o, none} x 1..3 inputs of 6 kinds (good .c, syntax-error .c, codegen-error .c, missing .c, good .s, bad .s) x one '
+    rule = ('complete enumeration: command shape {-E,-S,-c,link} x {-o, none} x 1..3 inputs of 7 kinds (good .c, syntax-error .c, codegen-error .c, missing .c, good .s, bad .s, pre-built .o) x one '
             'fault: none, k-th cc1 / k-th as / ld failing by exit status or by signal (k up to inputs+1), or an output path in a missing directory; each run checked against a model of the '
             'driver contract (exit status; outputs exist exactly for units whose pipeline completed; outputs of failed units never created or rewritten; every mkstemp file gone; on success no file appears that was not requested and the executable defines the symbols of every input). Plus '
             'Hypothesis-drawn concurrent bundles of 2-12 drivers in one directory, each compared with its solo run. non-trivial = pipeline has >= 2 subprocesses and the fault is not in the '
@@ -193,6 +195,13 @@ class C14:
             r = core.run(['gcc', '-shared', '-fPIC', '-o', self.preload, os.path.join(core.VERIF, 'native', 'mkstemp_log.c'), '-ldl'], timeout=60, as_mb=0)
             if r.rc != 0:
                 raise core.BuildError('cannot build mkstemp observer: ' + r.err[-300:])
+        for i in range(3):
+            o = os.path.join(top, 'obj%d.o' % i)
+            if not os.path.exists(o):
+                c = os.path.join(top, 'obj%d.c' % i)
+                open(c, 'w').write('int o%d(void){return %d;}\n' % (i, i))
+                if core.run(['gcc', '-c', '-o', o, c], timeout=60).rc != 0:
+                    raise core.BuildError('cannot build the object inputs')
 
     # ---- concurrent bundles
     def example(self, ch, ctx):
